@@ -38,11 +38,12 @@ class Sequences(Stage):
         g = rm.Gen(d, rm.vocab(specs), 1)
         which = d.choice(['filter', 'breakpoint', 'both', 'both'])
         initial = None
-        if d.chance(0.35):
+        ik = d.weighted([(55, 'none'), (25, 'atoms'), (20, 'collapse')])
+        if ik == 'atoms':
             initial = dict(alts=[atom_text(d, g) for _ in range(d.int(1, 2))], excl=[atom_text(d, g) for _ in range(d.int(0, 1))])
-            if d.chance(0.3):
-                # command-line matchers that collapse to a constant
-                initial = d.choice([dict(raw='!'), dict(raw='*'), dict(alts=[atom_text(d, g)], excl=['*']), dict(alts=['*.*'], excl=[]), dict(alts=['*'], excl=[])])
+        elif ik == 'collapse':
+            # command-line matchers that collapse to a constant
+            initial = d.choice([dict(raw='!'), dict(raw='*'), dict(alts=[atom_text(d, g)], excl=['*']), dict(alts=['*.*'], excl=[]), dict(alts=['*'], excl=[]), dict(raw='!')])
         cmds = []
         for _ in range(d.int(1, 8)):
             k = d.weighted([(1, 'star'), (1, 'bang'), (2, 'bad'), (7, 'alts'), (6, 'excl'), (1, 'star+'), (5, 'both')])
